@@ -158,6 +158,37 @@ CLAIMED["C11"] = (
     "Lean 4 proof (Effect relation, invariants over histories) with model-code correspondence",
     "DESIGN.md §5 C11, §10.2")
 
+CLAIMED["C02"] = (
+    "Lean 4 theorems over a transcription of setattr_trait (changed seeded from the comparison mode, when the old value is "
+    "fetched, default materialisation without notification, identity/equality comparison, TRAIT_SETATTR_ORIGINAL_VALUE, delete "
+    "path), setattr_event, getattr_trait, call_notifiers (copied list, veto, no-notify) and the three wrapper layers "
+    "(_change_accepted, ctrait_prevent_event): for every assignment history, comparison mode, handler mix, position and subset of "
+    "raising handlers each handler's call log equals the specification filter realChanges written from the property text "
+    "(C02_exactly_once_partial for traits that store the validated value — finding F22 for TRAIT_SETATTR_ORIGINAL_VALUE traits has a "
+    "proved negation witness —, _observe, _event), truthful old/new, the three mechanisms see the same sequence (== / != "
+    "consistency is a stated hypothesis with a necessity witness), rejected assignments and default reads are silent, and the "
+    "final state does not depend on which handlers raise. Enum and flag values, the changed seed, the identity comparisons and the "
+    "kind->handler tables are regenerated from the source by a translator and proved equal to the model's. Correspondence: real "
+    "classes with the three mechanisms in all orders x modes x value pools (equal-not-identical, NaN, arrays, raising __eq__).",
+    "Trusted: Lean kernel, standard axioms; translator enums; == / != of values enter as tables computed from the real objects; "
+    "re-raising exception handlers, self-removing handlers, vetoes, trait_setq and raising post_setattr are modelled and compared but "
+    "outside the theorems' hypotheses; re-entrant handlers, threads/dispatch variants, delegation and properties not modelled; harness.",
+    "Lean 4 proof (handler logs = specification filter of the history) with translated constants and model-code correspondence",
+    "DESIGN.md §5 C02, §10.2")
+CLAIMED["C10"] = (
+    "Lean 4 theorems over a transcription of default_value_for (all 11 default_value_type cases with an allocation counter), "
+    "getattr_trait, TraitType.clone for subclass-overridden defaults, _name_default binding and instance-trait cloning "
+    "(get_trait(..., 2)) in a world of classes and instances: first read returns and stores what default_value_for computes, the "
+    "factory / _name_default runs at most once per (instance, name) over any history, later reads return the same object, no read "
+    "reaches a handler, an operation on instance i leaves classes, other instances' records, defaults and call logs untouched "
+    "(non-interference; isolation along histories), defaults of copy-promising kinds are fresh (C10_fresh_partial; the full "
+    "statement is false for a list/dict default of Any overridden in a subclass — F9/F9b, upstream #1630 — with a proved "
+    "witness). The default_value_for cases and clone sets are tied to the source by the translated enums.",
+    "Trusted: Lean kernel, standard axioms; translator enums; containers are an id plus a multiset of elements; nested mutables "
+    "inside Any([...]) templates are shared by design of the shallow copy; raising factories are retried (observed, tagged); harness.",
+    "Lean 4 proof (non-interference and once-only by induction over histories) with translated constants and twin-run correspondence",
+    "DESIGN.md §5 C10, §10.2")
+
 NOT_YET = "check not built yet in this round (planned in DESIGN.md §9); not claimed until it exists"
 
 
